@@ -105,7 +105,9 @@ func (ym YamlMap) GetValue(key string) *YamlNode {
 func (ym *YamlMap) setValue(item *YamlKeyValue) {
 	for i := range ym.Items {
 		if ym.Items[i].Key.Value == item.Key.Value {
-			ym.Items[i].Value = item.Value
+			// Replace the item, don't write into it: items are shared with the
+			// map this one was cloned from (group labels shared by every rule).
+			ym.Items[i] = item
 			return
 		}
 	}
